@@ -67,6 +67,25 @@ type nsStanzaV struct {
 	P       payloadV
 }
 
+// emptyIDV is marshalled with an id attribute that is present and empty (a
+// struct field tagged "id,attr" without omitempty, as stanza.Presence has):
+// the library must treat it like an absent id.
+type emptyIDV struct {
+	XMLName xml.Name
+	Type    string `xml:"type,attr,omitempty"`
+	ID      string `xml:"id,attr"`
+	P       payloadV
+}
+
+// emptyIDText is the same as XML text (a hand-written or re-sent element).
+func emptyIDText(kind, typ, rq string) string {
+	s := "<" + kind
+	if typ != "" {
+		s += " type='" + typ + "'"
+	}
+	return s + " id=''><q xmlns='" + nsV + "' rq='" + rq + "'/></" + kind + ">"
+}
+
 // nsText is the same request as XML text for a decoder-backed reader.
 func nsText(kind, ns, typ, id, rq string) string {
 	s := "<" + kind + " xmlns='" + ns + "'"
@@ -139,6 +158,35 @@ func (w *world) call(ctx context.Context, via, kind, rq, id string, r *rand.Rand
 	if r.Intn(4) == 0 {
 		ns = w.p.Opts.NS()
 		w.c.Count("requests_explicitly_namespaced", 1)
+	}
+	if id == "" && ns == "" && r.Intn(2) == 0 {
+		// the id attribute is there, and empty
+		done := true
+		switch via {
+		case "SendIQ":
+			rc, err = s.SendIQ(ctx, xml.NewDecoder(strings.NewReader(emptyIDText("iq", typ, rq))))
+		case "EncodeIQ":
+			rc, err = s.EncodeIQ(ctx, emptyIDV{XMLName: xml.Name{Local: "iq"}, Type: typ, P: payloadV{RQ: rq}})
+		case "SendMessage":
+			rc, err = s.SendMessage(ctx, xml.NewDecoder(strings.NewReader(emptyIDText("message", "chat", rq))))
+		case "EncodeMessage":
+			rc, err = s.EncodeMessage(ctx, emptyIDV{XMLName: xml.Name{Local: "message"}, Type: "chat", P: payloadV{RQ: rq}})
+		case "SendPresence":
+			rc, err = s.SendPresence(ctx, xml.NewDecoder(strings.NewReader(emptyIDText("presence", "", rq))))
+		case "EncodePresence":
+			rc, err = s.EncodePresence(ctx, emptyIDV{XMLName: xml.Name{Local: "presence"}, P: payloadV{RQ: rq}})
+		default:
+			done = false
+		}
+		if done {
+			w.c.Count("requests_with_empty_id_attribute", 1)
+			if err != nil {
+				return 0, err
+			}
+			rn, note := readResp(rc, r)
+			w.log.add(ev{Ev: "closed", RQ: rq, Note: note})
+			return rn, nil
+		}
 	}
 	switch {
 	case ns != "" && via == "SendIQ":
